@@ -906,6 +906,20 @@ var keyPoolAll = []sval{
 	{tag: 'B', bs: []byte{1}}, {tag: 'B', bs: []byte{1, 2}}, {tag: 'B', bs: []byte{0xff}}, {tag: 'B', bs: []byte("a")},
 }
 
+// the value that compares equal in SQLite's order but has the other numeric storage class
+func twin(v sval) sval {
+	switch v.tag {
+	case 'I':
+		return sval{tag: 'R', bits: math.Float64bits(float64(v.i))}
+	case 'R':
+		f := math.Float64frombits(v.bits)
+		if f == math.Trunc(f) && math.Abs(f) < 1e15 {
+			return sval{tag: 'I', i: int64(f)}
+		}
+	}
+	return v
+}
+
 func (g *gen) l2val() sval {
 	switch g.r.Intn(8) {
 	case 0:
@@ -968,6 +982,21 @@ func runL2History(g *gen, prof l2profile, nops int, stats map[string]int) (strin
 	}
 	intx := map[int]bool{}
 	autoTx := map[int]bool{}
+	var recent []sval
+	if prof.connAttrs && prof.autoTime && g.r.Intn(3) == 0 {
+		// a transaction that starts with the automatic write time and gets an explicit one after its
+		// first write: the explicit time applies from then on and stays set after COMMIT
+		t1 := nextT()
+		do(&sop{kind: "wt", c: 0, t: 0})
+		do(&sop{kind: "begin", c: 0})
+		do(&sop{kind: "ins", c: 0, key: key(), vals: []sval{g.l2val(), g.l2val(), g.l2val()}[:ncols]})
+		do(&sop{kind: "wt", c: 0, t: t1})
+		do(&sop{kind: "ins", c: 0, key: key(), vals: []sval{g.l2val(), g.l2val(), g.l2val()}[:ncols]})
+		do(&sop{kind: "commit", c: 0})
+		do(&sop{kind: "rdconn", c: 0})
+		do(&sop{kind: "upd", c: 0, key: key(), vals: []sval{g.l2val(), g.l2val(), g.l2val()}[:ncols], mask: []bool{true, true, true}[:ncols]})
+		stats["script_wt_inside_auto_tx"]++
+	}
 	for step := 0; step < nops; step++ {
 		c := g.r.Intn(nconn)
 		ch := g.r.Intn(100)
@@ -975,10 +1004,19 @@ func runL2History(g *gen, prof l2profile, nops int, stats map[string]int) (strin
 		case ch < 30:
 			if !(intx[c] && autoTx[c]) {
 				do(&sop{kind: "wt", c: c, t: nextT()})
+			} else if prof.connAttrs && g.r.Intn(3) == 0 {
+				// an explicit write time assigned in the middle of a transaction that began with the
+				// automatic one: it must stay set after COMMIT
+				do(&sop{kind: "wt", c: c, t: nextT()})
+				autoTx[c] = false
+				do(&sop{kind: "rdconn", c: c})
 			}
 			vals := make([]sval, ncols)
 			for i := range vals {
 				vals[i] = g.l2val()
+				if vals[i].tag == 'I' || vals[i].tag == 'R' {
+					recent = append(recent, vals[i])
+				}
 			}
 			k := key()
 			if g.r.Intn(25) == 0 {
@@ -994,6 +1032,11 @@ func runL2History(g *gen, prof l2profile, nops int, stats map[string]int) (strin
 			any := false
 			for i := range vals {
 				vals[i] = g.l2val()
+				if len(recent) > 0 && g.r.Intn(4) == 0 {
+					// the numerically equal value of the other storage class (1 <-> 1.0), or the same
+					// value again: what is written must come back with its own class and bits
+					vals[i] = twin(recent[g.r.Intn(len(recent))])
+				}
 				mask[i] = g.r.Intn(2) == 0
 				any = any || mask[i]
 			}
@@ -1122,6 +1165,9 @@ func runL2History(g *gen, prof l2profile, nops int, stats map[string]int) (strin
 				do(&sop{kind: "wt", c: rc, t: nextT()})
 				do(&sop{kind: "upd", c: rc, key: key(), vals: nullVals(ncols), mask: m})
 			case 5:
+				// a read-only table over the writers' unmerged versions holds a dirty in-memory merge:
+				// nothing of it may reach the bucket, also not through a vacuum attempt
+				do(&sop{kind: "refresh", c: rc})
 				do(&sop{kind: "vacuum", c: rc, before: []int64{946684800, 4102444800}[g.r.Intn(2)]})
 			case 6:
 				if len(w.versions) > 0 {
